@@ -23,6 +23,8 @@ import (
 type c07Layout struct {
 	Name  string   `json:"layout"`
 	Texts []string `json:"resources"`
+	// Rejected marks resources (by index) that the builder has to reject
+	Rejected []int `json:"resources_to_be_rejected,omitempty"`
 }
 
 type c07ByCase struct {
@@ -40,10 +42,21 @@ type c07Outcome2 struct {
 	Final *facts.State
 }
 
-func c07Light(texts []string, init *facts.State, maxCycle uint64) (*c07Outcome2, error) {
+func c07Light(texts []string, init *facts.State, maxCycle uint64, rejected ...int) (*c07Outcome2, error) {
 	lib := ast.NewKnowledgeLibrary()
+	isRej := map[int]bool{}
+	for _, i := range rejected {
+		isRej[i] = true
+	}
 	for i, t := range texts {
-		if berr, _ := obs.BuildInto(lib, obs.KBName, obs.KBVersion, t); berr != nil {
+		berr, pan := obs.BuildInto(lib, obs.KBName, obs.KBVersion, t)
+		if isRej[i] {
+			if berr == nil || pan != nil {
+				return nil, fmt.Errorf("harness: resource %d was to be rejected (%v, %v)", i, berr, pan)
+			}
+			continue
+		}
+		if berr != nil {
 			return nil, fmt.Errorf("building resource %d: %v", i, berr)
 		}
 	}
@@ -103,7 +116,7 @@ func c07Compare(bc *c07ByCase, reps int) (msgs []string, alone *c07Outcome2, err
 	}
 	for _, l := range bc.Layouts {
 		for i := 0; i < reps; i++ {
-			tog, err := c07Light(l.Texts, bc.Init, bc.MaxCycle)
+			tog, err := c07Light(l.Texts, bc.Init, bc.MaxCycle, l.Rejected...)
 			if err != nil {
 				return nil, alone, fmt.Errorf("layout %s: %v", l.Name, err)
 			}
@@ -151,7 +164,7 @@ func boolSubExprs(e gast.Expr) []gast.Expr {
 	return out
 }
 
-const c07BystanderRule = " Second family (multi-cycle): a generated rule set with pairwise distinct saliences (1-5 rules over 2-5 hot locations, all assignment forms, Retract, Complete; up to 30 cycles; one or several resources) is executed alone and together with 1-2 bystander rules that can never fire (their condition is and-ed with F.H == -777 on either side; F.H is never written) but are made of the rule set's own material - a whole condition, one of its sub-expressions, or a new comparison on a hot location, with a copy of a rule's action list. Layouts: bystander first / last in the same resource, in an earlier resource, in a later resource. Oracle: the firing sequence, the class of the result and the complete final facts are the same with and without the bystander (each layout run 2-3 times); non-trivial there: the run alone has at least 2 firings."
+const c07BystanderRule = " Second family (multi-cycle): a generated rule set with pairwise distinct saliences (1-5 rules over 2-5 hot locations, all assignment forms, Retract, Complete; up to 30 cycles; one or several resources) is executed alone and together with 1-2 bystander rules that can never fire (their condition is and-ed with F.H == -777 on either side; F.H is never written) but are made of the rule set's own material - a whole condition, one of its sub-expressions, or a new comparison on a hot location, with a copy of a rule's action list. Layouts: bystander first / last in the same resource, in an earlier resource, in a later resource, in a resource that is rejected as a whole (offered last or after the first resource). Oracle: the firing sequence, the class of the result and the complete final facts are the same with and without the bystander (each layout run 2-3 times); non-trivial there: the run alone has at least 2 firings."
 
 func c07BystanderFamily(t *testing.T, col *stats.Collector) {
 	rc := fullRuleCfg()
@@ -221,11 +234,15 @@ func c07BystanderFamily(t *testing.T, col *stats.Collector) {
 		}
 		all := strings.Join(alone, "")
 		bc := &c07ByCase{Family: "bystander", Alone: alone, Init: c.Init, MaxCycle: c.MaxCycle, ByNames: bnames}
+		// the same bystander inside a resource that is rejected as a whole (it ends in a syntax error)
+		broken := btext + "rule ZBroken { when F.H > then }\n"
 		bc.Layouts = []c07Layout{
-			{"first in the same resource", []string{btext + all}},
-			{"last in the same resource", []string{all + btext}},
-			{"in an earlier resource", append([]string{btext}, alone...)},
-			{"in a later resource", append(append([]string{}, alone...), btext)},
+			{Name: "first in the same resource", Texts: []string{btext + all}},
+			{Name: "last in the same resource", Texts: []string{all + btext}},
+			{Name: "in an earlier resource", Texts: append([]string{btext}, alone...)},
+			{Name: "in a later resource", Texts: append(append([]string{}, alone...), btext)},
+			{Name: "in a rejected resource offered afterwards", Texts: append(append([]string{}, alone...), broken), Rejected: []int{len(alone)}},
+			{Name: "in a rejected resource offered after the first resource", Texts: append([]string{alone[0], broken}, alone[1:]...), Rejected: []int{1}},
 		}
 		msgs, out, err := c07Compare(bc, repsFor())
 		if err != nil {
